@@ -144,7 +144,7 @@ Proof.
   intros Hs Hlen Htail Hk. unfold norm_line.
   assert (Hf : forallb (fun b => b <? 128) (firstn (94 - k) s) = true).
   { rewrite forallb_forall in *. intros x Hx. apply Hs. rewrite <- (firstn_skipn (94 - k) s). apply in_or_app. now left. }
-  rewrite ascii_rune_count by assumption. rewrite firstn_length, Hlen.
+  cbv zeta. rewrite ascii_rune_count by assumption. rewrite firstn_length, Hlen.
   replace (Nat.min (94 - k) 94) with (94 - k)%nat by lia.
   destruct (Nat.eqb_spec (94 - k) 94) as [E|E]; [lia|].
   destruct (Nat.ltb_spec 94 (94 - k)) as [E2|E2]; [lia|].
